@@ -740,6 +740,44 @@ static void generate(Rng &R, const char *fl) {
     X("st"); C.count("gen_slot_pressure");
   }
   C.sample("slot pressure: all slots but one hold unfinished fast packets of other sources, a BAM / RTS-CTS reception lasting > 100 ms (gaps < 100 ms) must survive further sources starting fast packets (MsgTime refresh per data packet)");
+  // (4d) other pending information of the sending device while a transfer is open: an ISO request for product / configuration
+  //      information (or the address claim) addressed to the sending device is answered at once, or its answer is refused by
+  //      the driver and retried 187+ ms later; the transfer must go on being polled (pacing, timeout, later transfers)
+  int nq = tierN(80, 800);
+  for (int i = 0; i < nq; i++) {
+    bool retry = R.chance(1, 2);
+    resetNode(R, fl, "reset", (int)R.range(1, 2), 5, R.chance(1, 2) ? 1 : 2, retry ? (unsigned)R.range(3, 6) : 40);
+    int dev = (int)R.below(M[0].nDev); unsigned me = nodeAddr(0, dev);
+    int mode3 = (int)R.below(3);        // 0 BAM, 1 RTS never answered, 2 RTS answered slowly
+    int len = (int)R.range(60, 223); std::vector<unsigned char> pl = payload(R, len); int npk = (len + 6) / 7;
+    unsigned long pgn = mode3 == 0 ? pickPgn(R) : pickRtsPgn(R);
+    sendTP(dev, pgn, mode3 == 0 ? 255 : PEER, pl);
+    if (!lastRet) continue;
+    bool bam = seenCM(me, 255, 32) != nullptr;
+    auto request = [&](unsigned long what) { unsigned char b[3] = {(unsigned char)what, (unsigned char)(what >> 8), (unsigned char)(what >> 16)};
+      if (retry) X("accdef 0"); X(rxLine("rx", refId(6, 59904UL, PEER + 3, me), b, 3)); if (retry) X("accdef 1"); C.count(retry ? "gen_info_request_refused" : "gen_info_request"); };
+    static const unsigned long WHAT[] = {126996UL, 126998UL, 126996UL, 60928UL};
+    T(R.range(5, 40)); request(WHAT[R.below(4)]);
+    if (R.chance(1, 2)) { T(R.range(1, 30)); request(WHAT[R.below(3)]); }
+    if (bam) {
+      uint64_t tEnd = g_now + 52ULL * npk + 700;
+      while (g_now < tEnd) { T(R.chance(1, 2) ? 51 : R.range(10, 60)); X("poll"); if (R.chance(1, 60)) request(126996UL); }
+    } else if (mode3 == 1) {
+      for (int g = 0; g < 600; g += 30) { T(30); X("poll"); }
+    } else {
+      int have = 0;
+      for (int round = 0; round < 80 && have < npk; round++) {
+        T(R.range(5, 45)); if (R.chance(1, 3)) X("poll");
+        rxCTS("rx", PEER, me, (unsigned)R.range(1, 4), (unsigned)have + 1, pgn); size_t k = seenDT(me, PEER).size(); if (!k) break; have += (int)k;
+        if (R.chance(1, 6)) request(WHAT[R.below(3)]);
+      }
+      if (have >= npk) rxACK("rx", PEER, me, (unsigned)len, (unsigned)npk, pgn);
+      for (int g = 0; g < 500; g += 50) { T(50); X("poll"); }
+    }
+    X("st");
+    txRtsTransfer(R, dev, PEER, pickRtsPgn(R), payload(R, (int)R.range(9, 60)), F_NONE, 0);   // a later transfer proceeds
+  }
+  C.sample("pending information: ISO requests for 126996/126998/60928 addressed to the sending device during BAM / RTS-CTS transfers, answered at once or refused by the driver and retried; pacing, timeout and later transfers must be unaffected");
   // (5) concurrent sessions: several sources towards the node, the node's own transfers, fast-packet traffic, small slot counts
   int nc = tierN(40, 1500);
   for (int i = 0; i < nc; i++) {
